@@ -99,6 +99,8 @@ VALUES: dict[str, list[list[str]]] = {
 KITCHEN = {
     "main.py": '''import sys
 import pk.mid.leaf
+import vend.x.speedups
+from vend.y import speedups
 from typing import Any, Optional, cast, TYPE_CHECKING
 import m
 from m import helper, Reexported
@@ -298,14 +300,21 @@ def build_pairs(tier: str) -> tuple[list[dict[str, Any]], dict[str, str], dict[s
         pairs.append({"prog": c["file"] + "::" + c["name"], "files": c["steps"][0], "argv": corpus.step_argv(c, 0), "A": [], "B": list(c["flags"][0]), "toggle": {"flag": "<flags line>", "dest": "*", "args": list(c["flags"][0])}, "carrier": "cmdline"})
     # config-file carrier: boolean options through sections of several shapes (kitchen sink), with and without
     # background flags that stay the same in both runs
-    shapes = ["mypy", "mypy-m", "mypy-pk.*", "mypy-pk.*.leaf", "mypy-*.leaf", "mypy-main"]
+    shapes = ["mypy", "mypy-m", "mypy-pk.*", "mypy-pk.*.leaf", "mypy-*.leaf", "mypy-main", "mypy-vend.*.speedups", "mypy-missing_mod", "mypy-vend.*"]
+    import_opts = ("ignore_missing_imports", "follow_imports", "follow_imports_for_stubs", "follow_untyped_imports")
     backgrounds: list[list[str]] = [[], ["--debug-cache"]]
     j = 0
     for t in toggles:
-        if t["bool"] is None or t["dest"].startswith("special-opts"):
+        if t["dest"].startswith("special-opts"):
             continue
-        val = "True" if t["bool"] else "False"
-        use = shapes if tier == "thorough" else [shapes[0], shapes[1 + j % (len(shapes) - 1)], shapes[1 + (j + 2) % (len(shapes) - 1)]]
+        if t["bool"] is None:
+            if len(t["args"]) == 1 and "=" in t["args"][0]:
+                val = t["args"][0].split("=", 1)[1]
+            else:
+                continue
+        else:
+            val = "True" if t["bool"] else "False"
+        use = shapes if (tier == "thorough" or t["dest"] in import_opts) else [shapes[0], shapes[1 + j % (len(shapes) - 1)], shapes[1 + (j + 2) % (len(shapes) - 1)]]
         j += 1
         for section in use:
             for bg in backgrounds if (tier == "thorough" or section != "mypy") else [[]]:
